@@ -30,6 +30,26 @@ def decv(tok):
     return [] if tok == "_" else [dec(t) for t in tok.split(",")]
 
 
+# margins: largest observed deviation / tolerance per comparison family (must stay well below 1 on the unchanged tree)
+MARGIN = {"oracle": {"max_ratio": 0.0, "where": None, "n": 0, "n_ratio_gt_0.1": 0},
+          "model_vs_impl": {"max_ratio": 0.0, "where": None, "n": 0, "n_ratio_gt_0.1": 0}}
+
+
+def _margin(kind, ratio, where):
+    m = MARGIN[kind]
+    if not math.isfinite(ratio):
+        return
+    m["n"] += 1
+    if ratio > 0.1 and ratio <= 1.0:
+        m["n_ratio_gt_0.1"] += 1
+        top = m.setdefault("top", {})
+        w = str(where)[:100]
+        if w in top or len(top) < 60:
+            top[w] = round(max(top.get(w, 0.0), float(ratio)), 3)
+    if ratio <= 1.0 and ratio > m["max_ratio"]:
+        m["max_ratio"] = float(ratio); m["where"] = str(where)[:160]
+
+
 RETAINED = []     # (label, returned array object, byte snapshot) — re-verified at the end of the run (G8)
 _CUR = {"label": None}
 
@@ -99,7 +119,10 @@ def oracle_value(ctx, key, desc, logd, grad, x, lo=None, hi=None, tol=ORTOL, in_
     ng, err = num_grad(logd, x, lo, hi)
     if not np.all(np.isfinite(ng)):
         ctx.note(f"numerical derivative not finite at {desc}"); return True
-    bad = np.abs(ng - g) > tol * (1.0 + np.abs(g) + np.abs(ng)) + 4 * err
+    bound = tol * (1.0 + np.abs(g) + np.abs(ng)) + 4 * err
+    with np.errstate(all="ignore"):
+        _margin("oracle", float(np.max(np.abs(ng - g) / bound)) if np.all(np.isfinite(g)) else float("nan"), key)
+    bad = np.abs(ng - g) > bound
     if np.any(bad) or not np.all(np.isfinite(g)):
         ctx.fail(key, desc, [float(v) for v in ng], [float(v) for v in g],
                  "returned gradient is not the derivative of the same object's log-density")
@@ -135,7 +158,7 @@ def input_variants(x):
 # numpy evaluates log/sqrt/... of int8/uint8/bool arrays in float16 and of float32 arrays in float32: the precision
 # of the *input dtype's float companion* is all that can be demanded (floating point is not carried); wrap-around,
 # truncation and logical arithmetic are O(1) errors and remain visible
-VTOL = {"float32": 2e-5, "float16": 2e-2, "int8": 2e-2, "uint8": 2e-2, "bool": 2e-2}
+VTOL = {"float32": 1e-4, "float16": 1e-1, "int8": 1e-1, "uint8": 1e-1, "bool": 1e-1}
 
 
 def check_variants(ctx, key, desc, call, x, base, base_status="value"):
@@ -168,7 +191,17 @@ def check_variants(ctx, key, desc, call, x, base, base_status="value"):
 
 
 def cmp_vec(model_vals, impl_vals, tol=TOL):
-    return len(model_vals) == len(impl_vals) and all(close(a, b, tol) for a, b in zip(model_vals, impl_vals))
+    if len(model_vals) != len(impl_vals):
+        return False
+    ok = all(close(a, b, tol) for a, b in zip(model_vals, impl_vals))
+    if ok and tol > 0:
+        try:
+            r = max([abs(float(a) - float(b)) / (tol * (1.0 + max(abs(float(a)), abs(float(b))))) for a, b in zip(model_vals, impl_vals)
+                     if math.isfinite(float(a)) and math.isfinite(float(b))] or [0.0])
+            _margin("model_vs_impl", r, f"tol={tol}")
+        except Exception:  # noqa
+            pass
+    return ok
 
 
 def dy(rng, lo, hi, den=4):
@@ -234,6 +267,9 @@ def run(ctx):
         _case(kind, desc, nontrivial)
     ctx.case = case_
     RETAINED.clear()
+    for _m in MARGIN.values():
+        _m.update({"max_ratio": 0.0, "where": None, "n": 0, "n_ratio_gt_0.1": 0, "top": {}})
+    ctx.extra_cov["margins"] = MARGIN
 
     # geometry makers -------------------------------------------------------
     def geom(kind, n):
@@ -620,7 +656,10 @@ def run(ctx):
                 mfd = decv(fdout.split()[1])
                 if not cmp_vec(mfd, val2.tolist(), 1e-6):
                     ctx.disagree(key + ":fd", desc, mfd, val2.tolist(), "FD gradient differs from the model's forward difference")
-                oracle_value(ctx, key + ":fd", desc, dist.logd, val2, xa, tol=2e-3)
+                # the forward difference of a quadratic has the exact truncation error eps/2*P_ii (theorem fd_quadratic_exact)
+                # = |model FD - model derivative|: allow twice that on top of the noise tolerance
+                trunc = max([abs(a_ - b_) for a_, b_ in zip(mfd, decv(mtoks[3]))] or [0.0])
+                oracle_value(ctx, key + ":fd", desc, dist.logd, val2, xa, tol=2e-3 + 2 * trunc)
 
     # ----------------------------------------------------------------------- 3b. Lognormal prior, every covariance form
     lncases = []
@@ -1550,7 +1589,7 @@ def run(ctx):
                     fdm = np.array([(f_logd(xs + eps * np.eye(n_fd)[i]) - f0) / eps for i in range(n_fd)])   # fdGrad on the object's logd
                 if not cmp_vec(fdm.tolist(), val.tolist(), 1e-6 + 1e-14 * abs(f0) / eps):
                     ctx.disagree(key, desc, fdm.tolist(), val.tolist(), f"not the forward difference with the spacing {eps} of the last enable_FD")
-                oracle_value(ctx, key, desc, f_logd, val, xs, tol=max(2e-4, 40 * eps), in_support=True)
+                oracle_value(ctx, key, desc, f_logd, val, xs, tol=max(2e-4, 100 * eps), in_support=True)
         # (b) re-assignment through setters after first use
     def reassign_cases():
         n = 3
